@@ -393,10 +393,15 @@ func future(t *testing.T, s *sys, res *vh.Result, w *vh.NDJSONWriter, obs func(s
 		return
 	}
 	// ... up to the version number the deleted secret had reached: (name, version) now means other bytes than before
-	for k := 1; k < int(ver2); k++ {
-		if v, err := cl.Put(ctx, name, []byte(fmt.Sprintf("filler %d", k))); err != nil || int(v) != k {
-			res.Violate("roundtrip recreate "+what, fmt.Sprintf("put %d after the delete: version %v, error %v", k, v, err), nil)
+	// (how versions are numbered after a delete is C02's business, not this journey's: it just puts until it gets there)
+	for k := 1; k < int(ver2) && k < 12; k++ {
+		v, err := cl.Put(ctx, name, []byte(fmt.Sprintf("filler %d", k)))
+		if err != nil {
+			res.Violate("roundtrip recreate "+what, fmt.Sprintf("put %d after the delete failed: %v", k, err), nil)
 			return
+		}
+		if int(v) >= int(ver2)-1 {
+			break
 		}
 	}
 	val3 := append([]byte("again: "), val2...)
